@@ -53,12 +53,13 @@ def shards(tier, seed):
     for py in bare_interpreters():
         out.append({"kind": "sweep", "python": py})
     out.append({"kind": "standalone", "pythons": bare_interpreters()})
+    out.append({"kind": "import_path", "pythons": bare_interpreters()})
     out.append({"kind": "cmdlines"})
     return out
 
 
 def run_shard(spec):
-    return {"dynamic": run_dynamic, "sweep": run_sweep, "standalone": run_standalone, "cmdlines": run_cmdlines}[spec["kind"]](spec)
+    return {"dynamic": run_dynamic, "sweep": run_sweep, "standalone": run_standalone, "cmdlines": run_cmdlines, "import_path": run_import_path}[spec["kind"]](spec)
 
 
 PROBE = r"""
@@ -106,6 +107,18 @@ else:
     sys.settrace(tr)
 sys._verif_hits = hits
 channel.send(fn)
+"""
+
+SERVICE = r"""
+out = channel.gateway.newchannel()
+c = channel.gateway.newchannel()
+def cb(item, out=out):
+    out.send(("echo", type(item).__name__))
+    if isinstance(item, dict):
+        item["carrier"].send("hello over the carried channel")
+c.setcallback(cb, endmarker=None)
+channel.send((c, out))
+del c
 """
 
 FINAL = r"""
@@ -221,6 +234,28 @@ def run_dynamic(spec):
                     if diff:
                         res.violation(f"bare-worker-transcript-differs:{spec['path']}", f"{label} program #{i}: {diff}")
                         break
+                # a service left behind by remote code: a callback on a channel whose object is gone there (less travelled
+                # branches of the shipped receiver code), fed plain items and an item carrying a channel
+                sv = gw.remote_exec(SERVICE)
+                c_in, c_out = sv.receive(15)
+                sv.waitclose(30)
+                c_in.send(("plain", 1))
+                inner = gw.newchannel()
+                c_in.send({"carrier": inner})
+                c_in.close()
+                svgot = []
+                try:
+                    for _ in range(3):
+                        svgot.append(c_out.receive(8))
+                except BaseException as e:  # noqa
+                    svgot.append(f"{type(e).__name__}: {str(e)[-200:]}")
+                try:
+                    inner_said = inner.receive(8)
+                except BaseException as e:  # noqa
+                    inner_said = f"{type(e).__name__}: {str(e)[-200:]}"
+                res.count("callback_services_on_bare_workers")
+                if svgot != [("echo", "tuple"), ("echo", "dict"), ("echo", "NoneType")] or inner_said != "hello over the carried channel":
+                    res.violation(f"bare-worker-callback-service-differs:{spec['path']}", f"{label}: {short(svgot, 300)} / {short(inner_said, 200)}")
                 # rsync's remote part and remote_status work there too
                 st = gw.remote_status()
                 if spec["path"] != "socket" and st.execmodel != model:
@@ -401,6 +436,65 @@ def run_sweep(spec):
 
 # ---------------------------------------------------------------------------
 # (c) stand-alone socket server
+
+
+IMPORT_MASTER = r"""
+import sys, json
+sys.path.insert(0, sys.argv[1])          # the application vendors execnet: no PYTHONPATH, nothing installed for it
+import execnet
+out = {"master": execnet.__file__}
+try:
+    gw = execnet.makegateway(sys.argv[2])
+    ch = gw.remote_exec("import execnet, sys, threading; channel.send((execnet.__file__, channel.gateway.__class__.__module__))")
+    out["worker"], out["worker_gateway_module"] = ch.receive(30)
+    ch2 = gw.remote_exec("channel.send(channel.receive() * 2)")
+    ch2.send(21)
+    out["echo"] = ch2.receive(30)
+    out["execmodel"] = gw.remote_status().execmodel
+    gw.exit()
+except BaseException as e:
+    out["error"] = type(e).__name__ + ": " + str(e)[-300:]
+print(json.dumps(out))
+"""
+
+
+def run_import_path(spec):
+    """the import bootstrap (plain popen): the child is the same interpreter started afresh; it must come up and run the
+    *initiator's* execnet although that is importable in the initiator only through a run-time sys.path entry"""
+    res = Result()
+    for py in spec["pythons"]:
+        for gwspec in ("popen", "popen//execmodel=main_thread_only", "popen//dont_write_bytecode"):
+            env = {k: v for k, v in os.environ.items() if k not in ("PYTHONPATH", "PYTHONHOME", "EXECNET_DEBUG")}
+            label = f"{py} {gwspec}"
+            try:
+                p = subprocess.run([py, "-c", IMPORT_MASTER, core.REPO_SRC, gwspec], env=env, capture_output=True, text=True, timeout=90,
+                                   cwd=tempfile_dir())
+            except subprocess.TimeoutExpired:
+                res.violation("import-bootstrap-hangs", label)
+                continue
+            res.count("import_bootstrapped_workers")
+            res.case(core.h64("import_path", py, gwspec))
+            try:
+                out = json.loads(p.stdout.strip().splitlines()[-1])
+            except (ValueError, IndexError):
+                res.violation("import-bootstrap-master-failed", f"{label}: rc={p.returncode} {short(p.stderr, 300)}")
+                continue
+            want = os.path.abspath(core.REPO_SRC) + os.sep
+            if "error" in out:
+                res.violation("import-bootstrapped-worker-did-not-come-up", f"{label}: {out['error']}")
+            elif not os.path.abspath(out.get("worker", "")).startswith(want):
+                res.violation("import-bootstrapped-worker-runs-another-execnet", f"{label}: initiator uses {out['master']}, its worker {out.get('worker')}")
+            elif out.get("echo") != 42:
+                res.violation("import-bootstrapped-worker-misbehaves", f"{label}: {out}")
+            elif len(res.samples) < 2:
+                res.sample({"import_bootstrap": label, "worker_execnet": out["worker"]})
+    return res
+
+
+def tempfile_dir():
+    import tempfile
+
+    return tempfile.gettempdir()
 
 
 def run_standalone(spec):
